@@ -112,7 +112,9 @@ func Run(o Opts) (*Result, error) {
 	if heap == "" {
 		heap = "4g"
 	}
-	args := []string{"-XX:+UseParallelGC", "-Xmx" + heap}
+	jtmp := filepath.Join(dir, "jtmp") // TLC unpacks its module jars under java.io.tmpdir; keep that inside dir
+	os.MkdirAll(jtmp, 0o755)
+	args := []string{"-XX:+UseParallelGC", "-Xmx" + heap, "-Djava.io.tmpdir=" + jtmp}
 	if o.Stack != "" {
 		args = append(args, "-Xss"+o.Stack)
 	}
